@@ -147,15 +147,14 @@ class Driver:
 
 
 def _lean_tree_hash():
+    """hash of the library as built (work in progress outside the root import cannot affect any audited theorem)"""
     h = hashlib.sha256()
-    for root, dirs, files in os.walk(LEAN_DIR):
-        dirs[:] = sorted(d for d in dirs if d != ".lake")
-        for f in sorted(files):
-            if f.endswith(".lean") or f.endswith(".toml"):
-                p = os.path.join(root, f)
-                h.update(p.encode())
-                with open(p, "rb") as fh:
-                    h.update(fh.read())
+    lib = _library_modules() | {os.path.join(LEAN_DIR, "lakefile.toml")}
+    for p in sorted(lib):
+        if os.path.exists(p):
+            h.update(p.encode())
+            with open(p, "rb") as fh:
+                h.update(fh.read())
     return h.hexdigest()
 
 
@@ -578,6 +577,8 @@ def write_evidence(ctx, aud, theorems, trusted_base, assumptions, rule, extra=No
         "driver_mode": ctx._driver.mode if ctx._driver else "unused",
         "driver_calls": ctx._driver.calls if ctx._driver else 0,
         "audit_problems": aud["problems"],
+        "translator_ties": {"schema": aud.get("schema_tie"), "sql": aud.get("sql_tie")},
+        "leanchecker": aud.get("leanchecker"),
         "notes": ctx.notes,
     }
     if extra:
@@ -638,3 +639,19 @@ def same_as_snapshot(obj, snap):
     if isinstance(obj, (list, tuple)):
         return type(obj) is type(snap) and len(obj) == len(snap) and all(same_as_snapshot(a, b) for a, b in zip(obj, snap))
     return obj == snap or (obj != obj and snap != snap)
+
+
+def any_layout(rng, arr, p=0.4):
+    """the same values in another memory layout (what slicing a table or subsampling gives): a strided view, a column of a
+    2-D array, or a reversed view of a reversed copy; contiguous with probability 1 - p"""
+    import numpy as np
+    arr = np.asarray(arr)
+    if arr.ndim != 1 or arr.size == 0 or rng.random() >= p:
+        return arr
+    kind = rng.choice(["strided", "column", "reversed"])
+    if kind == "strided":
+        return np.repeat(arr, 2)[::2]
+    if kind == "column":
+        junk = np.full(arr.shape, 12345.678 if arr.dtype.kind == "f" else 7, dtype=arr.dtype)
+        return np.stack([arr, junk], axis=1)[:, 0]
+    return arr[::-1].copy()[::-1]
